@@ -327,6 +327,11 @@ def main():
     w("    `append` from the per-worker buffers, tested for emptiness and then SORTED (`raw_segs.sort()`)")
     w("    before any other statement reads it. First uses seen (V = the vector): %s -/" % json.dumps(stmts).replace("-/", "- /"))
     w("def classifySortsDrained : Bool := " + ("true" if ok else "false"))
+    # --- the 2-bit k-mer masks of the fallback-minimizer scan (defect D14: `1u64 << (2 * k)` at k = 32)
+    masks = [re.sub(r"\s+", " ", m.group(1)).strip()
+             for m in re.finditer(r"let mask: u64 = (.*?);\n", strip_comments(a))]
+    w("/-- agc_compressor.rs: every `let mask: u64 = …;` (k-mer masks of the fallback-minimizer scans), whitespace-normalised. -/")
+    w("def fallbackMaskExprs : List String := [" + ", ".join(json.dumps(x) for x in masks) + "]")
     w("")
     w("end Ragc.Gen")
     text = "\n".join(out) + "\n"
